@@ -52,5 +52,28 @@ for sid in sorted(os.listdir(os.path.join(ROOT, "seeded"))):
     s += f"| {sid} | {what} | {res} |\n"
     n += 1
 s += f"\n{n} seeds so far. Where a seed was missed at first, the table says what was strengthened; nothing was loosened.\n\n"
+# 9.5: hand-written log of the third session (notes/design_9_5.md); 9.6: generated from checks/*.py and evidence/*.json
+s += open(os.path.join(ROOT, "notes", "design_9_5.md")).read().rstrip("\n") + "\n\n"
+import glob, importlib, sys
+sys.path.insert(0, ROOT); sys.path.insert(0, os.path.join(ROOT, "tools"))
+s += ("### 9.6 As-built summary per property (generated from checks/cXX.py and the committed evidence)\n\n"
+      "`thm` = property theorems audited by `#print axioms` on every run, `gen` = tables re-extracted from /repo on every run, "
+      "`cases` = correspondence cases of the committed quick run, `kf` = known findings that reproduced in it. The level text is the "
+      "`level_claimed.text` of MANIFEST.json; theorem lists and per-theorem meanings are in `notes/Cxx.md`.\n\n"
+      "| id | thm | gen | cases | kf | what is proved, what is partial (level text) |\n|---|---|---|---|---|---|\n")
+for f in sorted(glob.glob(os.path.join(ROOT, "checks", "c[0-9][0-9].py"))):
+    spec = importlib.import_module("checks." + os.path.basename(f)[:-3]).SPEC
+    pid = spec["id"]
+    ev = {}
+    try:
+        ev = json.load(open(os.path.join(ROOT, "evidence", pid + ".json")))
+    except Exception:
+        pass
+    cov = ev.get("coverage", {})
+    txt = " ".join(str(spec.get("level_text", "")).split()).replace("|", "/")
+    s += (f"| {pid} | {len(spec.get('theorems', []))} | {len(spec.get('gens', []))} | {cov.get('evaluations', '?')} | "
+          f"{len(cov.get('known_findings_reproduced', []))} | {txt} |\n")
+s += "\n"
+tail = ""
 open(os.path.join(ROOT, "DESIGN.md"), "w").write(head + s + tail)
 print("rewrote 9.2-9.4 with", len(fixes), "fixes and", n, "seeds")
